@@ -39,7 +39,16 @@ def planH (j : Json) : R Json := do
   return jObj [("results", jList jStr out.results), ("slot_outs", jList jNat out.slotOuts),
                ("settings_unchanged", jBool (out.settings == table))]
 
+/-- the channels a GGN method evaluates explicitly, for a list of comb sizes -/
+def cutIndicesH (j : Json) : R Json := do
+  let p : NliParams := { method := ← fStr j "method", computedChannels := ← fOpt (getList getNat) j "computed_channels",
+                         computedNumberOfChannels := ← fOpt getNat j "computed_number_of_channels" }
+  let ns ← fList getNat j "nb_ch"
+  return jList (fun n => match cutIndices p n with
+    | .ok l => jList jNat l
+    | .error e => jStr e) ns
+
 def handlers : List (String × Handler) :=
-  [("c16.edfa_seq", edfaSeqH), ("c16.line", lineH), ("c16.plan", planH)]
+  [("c16.cut_indices", cutIndicesH), ("c16.edfa_seq", edfaSeqH), ("c16.line", lineH), ("c16.plan", planH)]
 
 end Gnpy.Drv.C16
